@@ -8,6 +8,7 @@
   resolved owes nothing.
 -/
 import ApiFu.C02.Errors
+import ApiFu.C02.Data
 
 namespace ApiFu.C02
 
@@ -76,7 +77,7 @@ theorem poll_cert_aux :
     | ok v => simp [Fut.certF] at he
     | err e0 =>
       simp only [Fut.certF, List.mem_singleton] at he; subst he
-      exact ⟨fun h => by cases h, fun e' h => by cases h; rfl⟩
+      exact ⟨fun h => (by cases h), fun e' h => (by cases h; rfl)⟩
   · intro id res S e he; simp [Fut.certF] at he
   · intro fn g S _ e he; simp [Fut.certF] at he
   · intro fn g S _ e he; simp [Fut.certF] at he
@@ -96,7 +97,7 @@ theorem poll_cert_aux :
               (.ready (.err ⟨path, e0.msg⟩), { S with chan := S.chan.erase id }, some (.err ⟨path, e0.msg⟩)) := by
             simp [applyK, poll_ready]
           rw [poll_thenK_fire_some hp hp2]
-          exact ⟨fun h => by cases h, fun e' h => by cases h; rfl⟩
+          exact ⟨fun h => (by cases h), fun e' h => (by cases h; rfl)⟩
         | ok v =>
           simp only [Fut.certF] at he
           cases nn with
@@ -109,10 +110,10 @@ theorem poll_cert_aux :
                 (.ready (.err ⟨path, msg⟩), { S with chan := S.chan.erase id }, some (.err ⟨path, msg⟩)) := by
               simp [applyK, complete_bad, poll_ready]
             rw [poll_thenK_fire_some hp hp2]
-            exact ⟨fun h => by cases h, fun e' h => by cases h; rfl⟩
+            exact ⟨fun h => (by cases h), fun e' h => (by cases h; rfl)⟩
       · have hp : poll (.promise id res) S = (.promise id res, S, none) := by simp [poll, h]
         rw [poll_thenK_wait hp]
-        exact ⟨fun _ => he, fun e' h => by cases h⟩
+        exact ⟨fun _ => he, fun e' h => (by cases h)⟩
     | _ => simp [Fut.certF] at he
   · intro nn c path g t S ih e he
     have ih := ih e (by simpa [Fut.certF] using he)
@@ -121,15 +122,349 @@ theorem poll_cert_aux :
     cases o with
     | some r =>
       rw [poll_thenK_cont_some hp]
-      exact ⟨fun h => by cases h, fun e' h => ih.2 e' (by simpa using h)⟩
+      exact ⟨fun h => (by cases h), fun e' h => ih.2 e' (by simpa using h)⟩
     | none =>
       rw [poll_thenK_cont_none hp]
-      exact ⟨fun _ => by simpa [Fut.certF] using ih.1 rfl, fun e' h => by cases h⟩
+      exact ⟨fun _ => (by simpa [Fut.certF] using ih.1 rfl), fun e' h => (by cases h)⟩
   · intro tag a b g S _ _ e he; simp [Fut.certF] at he
   · intro tag a b g t S _ e he; simp [Fut.certF] at he
   · intro fs S _ e he; simp [Fut.certF] at he
   · intro fs S _ e he; simp [Fut.certF] at he
   · intro S; trivial
   · intro f rest S _ _; trivial
+
+/-! ### constructors -/
+
+theorem mkMap_req_catch (f : Fut) (S : Store) :
+    ∀ e ∈ (Fut.map .catchError f).owedE,
+      e ∈ (mkMap .catchError f S).1.owedE ∨ Rep (mkMap .catchError f S).2.log e := by
+  intro e he
+  cases f with
+  | ready r =>
+    cases r with
+    | ok v => simp [Fut.owedE, Fut.out, Res.out, Out.isOk] at he
+    | err e0 =>
+      simp only [Fut.owedE, Fut.out, Res.out, Out.isOk, Bool.false_eq_true, if_false, Fut.certF,
+        List.mem_singleton] at he
+      subst he
+      exact Or.inr (by simp only [mkMap, applyMap]; exact Rep.push_error S e)
+  | _ => exact Or.inl (by simpa [mkMap] using he)
+
+theorem mkMap_owedE_nonNull (e0 : Err) (f : Fut) (S : Store) : (mkMap (.nonNull e0) f S).1.owedE = f.owedE := by
+  cases f <;> simp [mkMap, Fut.owedE]
+
+theorem nonNullWrap_owedE (nn : Bool) (path : Path) (f : Fut) (S : Store) :
+    (nonNullWrap nn path f S).1.owedE = f.owedE := by
+  unfold nonNullWrap; cases nn <;> simp [mkMap_owedE_nonNull]
+
+theorem mkMapOkToAny_owedE (f : Fut) : (mkMapOkToAny f).owedE = f.owedE := by
+  cases f <;> simp [mkMapOkToAny, Fut.owedE]
+
+theorem mkMapOkValue_owedE (v : Val) (f : Fut) : (mkMapOkValue v f).owedE = f.owedE := by
+  cases f with
+  | ready r => cases r <;> simp [mkMapOkValue, Fut.owedE]
+  | _ => simp [mkMapOkValue, Fut.owedE]
+
+theorem scanReady_done_owedE (fs : List Fut) (vs : List Val) (h : scanReady fs = .done vs) : Fut.owedEL fs = [] := by
+  induction fs generalizing vs with
+  | nil => rfl
+  | cons f rest ih =>
+    cases f with
+    | ready r =>
+      cases r with
+      | ok v =>
+        simp only [scanReady] at h
+        cases hr : scanReady rest with
+        | done vs' => simp [Fut.owedEL, Fut.owedE, ih vs' hr]
+        | failed e => simp [hr] at h
+        | pending => simp [hr] at h
+      | err e => simp [scanReady] at h
+    | _ => simp only [scanReady] at h; split at h <;> cases h
+
+theorem mkJoin_owedE (fs : List Fut) (h : (Fut.outs fs).isSome = true) : (mkJoin fs).owedE = Fut.owedEL fs := by
+  have hs := scanReady_out fs
+  unfold mkJoin
+  split
+  · rename_i e he; rw [hs.1 e he] at h; simp at h
+  · rename_i vs he; simp [Fut.owedE, scanReady_done_owedE fs vs he]
+  · simp [Fut.owedE, h]
+
+theorem mkAfter_owedE (fs : List Fut) (h : (Fut.outs fs).isSome = true) : (mkAfter fs).owedE = Fut.owedEL fs := by
+  have hs := scanReady_out fs
+  unfold mkAfter
+  split
+  · rename_i e he; rw [hs.1 e he] at h; simp at h
+  · rename_i vs he; simp [Fut.owedE, scanReady_done_owedE fs vs he]
+  · simp [Fut.owedE, h]
+
+theorem owedEL_append_one (acc : List Fut) (g : Fut) : Fut.owedEL (acc ++ [g]) = Fut.owedEL acc ++ g.owedE := by
+  induction acc with
+  | nil => simp [Fut.owedEL]
+  | cons a acc ih => simp [Fut.owedEL, ih]
+
+theorem catch_req_ok (f : Fut) (S : Store) (hok : f.out.isOk = true) :
+    ∀ e ∈ f.owedE, e ∈ (catchIfNullable false f S).1.owedE ∨ Rep (catchIfNullable false f S).2.log e := by
+  intro e he
+  have := mkMap_req_catch f S e (by simpa [Fut.owedE, hok] using he)
+  simpa [catchIfNullable] using this
+
+theorem catch_req_fail (f : Fut) (S : Store) (hok : f.out.isOk = false) :
+    ∀ e ∈ f.certF, e ∈ (catchIfNullable false f S).1.owedE ∨ Rep (catchIfNullable false f S).2.log e := by
+  intro e he
+  have := mkMap_req_catch f S e (by simpa [Fut.owedE, hok] using he)
+  simpa [catchIfNullable] using this
+
+theorem execField_req (nn : Bool) (mode : Mode) (c : Comp) (p : Path) (completed : Store → Fut × Store) (S : Store)
+    (hm : mode ≠ .tname)
+    (hc : ∀ S', ∀ e ∈ Spec.reqC nn c p, e ∈ (completed S').1.owedE ∨ Rep (completed S').2.log e) :
+    ∀ e ∈ Spec.reqC nn c p,
+      e ∈ (execField nn mode none c p completed S).1.owedE ∨ Rep (execField nn mode none c p completed S).2.log e := by
+  intro e he
+  unfold execField
+  cases mode with
+  | tname => exact absurd rfl hm
+  | sync => exact hc _ e he
+  | promise => exact Or.inl (by simpa [Fut.owedE, Fut.out, Res.out, Out.isOk] using he)
+  | pre => exact Or.inl (by simpa [Fut.owedE, Fut.out, Res.out, Out.isOk] using he)
+
+theorem execField_cert_rerr (nn : Bool) (mode : Mode) (msg : String) (c : Comp) (p : Path)
+    (completed : Store → Fut × Store) (S : Store) (hm : mode ≠ .tname) :
+    (⟨p, msg⟩ : Err) ∈ (execField nn mode (some msg) c p completed S).1.certF := by
+  unfold execField
+  cases mode with
+  | tname => exact absurd rfl hm
+  | sync => simp [Fut.certF]
+  | promise => simp [Fut.certF]
+  | pre => simp [Fut.certF]
+
+theorem execField_cert_comp (mode : Mode) (c : Comp) (p : Path) (S : Store) (hm : mode ≠ .tname) :
+    ∀ e ∈ Spec.certC c p, e ∈ (execField false mode none c p (fun S' => complete false c p S') S).1.certF := by
+  intro e he
+  obtain ⟨msg, rfl, rfl⟩ := certC_mem he
+  unfold execField
+  cases mode with
+  | tname => exact absurd rfl hm
+  | sync => simp [complete_bad, Fut.certF]
+  | promise => simp [Fut.certF, Spec.certC]
+  | pre => simp [Fut.certF, Spec.certC]
+
+/-- The future of one field, after `catchErrorIfNullable`, owes or has reported every required
+    error of that field. -/
+theorem fieldStep_req (path : Path) (key : String) (nn : Bool) (mode : Mode) (rerr : Option String) (c : Comp)
+    (S S1 S11 : Store) (f f1 : Fut) (hm : mode ≠ .tname)
+    (ihc : ∀ S', ∀ e ∈ Spec.reqC nn c (path ++ [.key key]),
+      e ∈ (complete nn c (path ++ [.key key]) S').1.owedE ∨ Rep (complete nn c (path ++ [.key key]) S').2.log e)
+    (h1 : execField nn mode rerr c (path ++ [.key key]) (fun S' => complete nn c (path ++ [.key key]) S') S = (f, S1))
+    (h2 : catchIfNullable nn f S1 = (f1, S11)) :
+    ∀ e ∈ Spec.reqHead mode nn rerr (path ++ [.key key]) (Spec.comp nn c (path ++ [.key key])).isOk
+        (Spec.reqC nn c (path ++ [.key key])) (Spec.certC c (path ++ [.key key])),
+      e ∈ f1.owedE ∨ Rep S11.log e := by
+  intro e he
+  have hfout := execField_out nn mode rerr c (path ++ [.key key]) (fun S' => complete nn c (path ++ [.key key]) S') S
+    (fun S' => complete_out _ _ _ _)
+  rw [h1] at hfout
+  simp only at hfout
+  have hcm := catchIfNullable_mono nn f S1
+  rw [h2] at hcm
+  cases rerr with
+  | some msg =>
+    simp only at hfout
+    have hcert := execField_cert_rerr nn mode msg c (path ++ [.key key])
+      (fun S' => complete nn c (path ++ [.key key]) S') S hm
+    rw [h1] at hcert
+    cases nn with
+    | true => cases mode <;> simp [Spec.reqHead] at he
+    | false =>
+      have he' : e = ⟨path ++ [.key key], msg⟩ := by cases mode <;> simp_all [Spec.reqHead]
+      subst he'
+      have := catch_req_fail f S1 (by rw [hfout]; rfl) _ hcert
+      rw [h2] at this; exact this
+  | none =>
+    simp only at hfout
+    by_cases hok : (Spec.comp nn c (path ++ [.key key])).isOk = true
+    · have he' : e ∈ Spec.reqC nn c (path ++ [.key key]) := by cases mode <;> simp_all [Spec.reqHead]
+      have hreq := execField_req nn mode c (path ++ [.key key]) (fun S' => complete nn c (path ++ [.key key]) S') S hm ihc e he'
+      rw [h1] at hreq
+      rcases hreq with hreq | hreq
+      · cases nn with
+        | true =>
+          simp only [catchIfNullable, if_true, Prod.mk.injEq] at h2
+          obtain ⟨rfl, rfl⟩ := h2; exact Or.inl hreq
+        | false =>
+          have := catch_req_ok f S1 (by rw [hfout]; exact hok) e hreq
+          rw [h2] at this; exact this
+      · exact Or.inr (hreq.mono hcm)
+    · have hok' : (Spec.comp nn c (path ++ [.key key])).isOk = false := by simpa using hok
+      cases nn with
+      | true => cases mode <;> simp_all [Spec.reqHead]
+      | false =>
+        have he' : e ∈ Spec.certC c (path ++ [.key key]) := by cases mode <;> simp_all [Spec.reqHead]
+        have hcert := execField_cert_comp mode c (path ++ [.key key]) S hm e he'
+        rw [h1] at hcert
+        have := catch_req_fail f S1 (by rw [hfout]; exact hok') e hcert
+        rw [h2] at this; exact this
+
+theorem itemStep_req (inn : Bool) (c : Comp) (p : Path) (S S1 S11 : Store) (f f1 : Fut)
+    (ih1 : ∀ e ∈ Spec.reqC inn c p, e ∈ (complete inn c p S).1.owedE ∨ Rep (complete inn c p S).2.log e)
+    (h1 : complete inn c p S = (f, S1)) (h2 : catchIfNullable inn f S1 = (f1, S11)) :
+    ∀ e ∈ (if (Spec.comp inn c p).isOk then Spec.reqC inn c p else if inn then [] else Spec.certC c p),
+      e ∈ f1.owedE ∨ Rep S11.log e := by
+  intro e he
+  have hfout : f.out = Spec.comp inn c p := by have := complete_out inn c p S; rw [h1] at this; exact this
+  have hcm := catchIfNullable_mono inn f S1
+  rw [h2] at hcm
+  rw [h1] at ih1
+  by_cases hok : (Spec.comp inn c p).isOk = true
+  · simp only [hok, if_true] at he
+    rcases ih1 e he with h | h
+    · cases inn with
+      | true =>
+        simp only [catchIfNullable, if_true, Prod.mk.injEq] at h2
+        obtain ⟨rfl, rfl⟩ := h2; exact Or.inl h
+      | false =>
+        have := catch_req_ok f S1 (by rw [hfout]; exact hok) e h
+        rw [h2] at this; exact this
+    · exact Or.inr (h.mono hcm)
+  · have hok' : (Spec.comp inn c p).isOk = false := by simpa using hok
+    simp only [hok', Bool.false_eq_true, if_false] at he
+    cases inn with
+    | true => simp at he
+    | false =>
+      simp only [Bool.false_eq_true, if_false] at he
+      obtain ⟨msg, rfl, rfl⟩ := certC_mem he
+      rw [complete_bad] at h1
+      simp only [Prod.mk.injEq] at h1
+      obtain ⟨rfl, rfl⟩ := h1
+      have := catch_req_fail (.ready (.err ⟨p, msg⟩)) S (by simp [Fut.out, Res.out, Out.isOk]) ⟨p, msg⟩
+        (by simp [Fut.certF])
+      rw [h2] at this; exact this
+
+theorem mem_reqF_cons (key : String) (nn : Bool) (mode : Mode) (rerr : Option String) (c : Comp)
+    (rest : List Field) (path : Path) (e : Err) :
+    e ∈ Spec.reqF (.mk key nn mode rerr c :: rest) path ↔
+      e ∈ Spec.reqHead mode nn rerr (path ++ [.key key]) (Spec.comp nn c (path ++ [.key key])).isOk
+        (Spec.reqC nn c (path ++ [.key key])) (Spec.certC c (path ++ [.key key])) ∨
+      e ∈ Spec.reqF rest path := by
+  simp [Spec.reqF]
+
+/-- After building, every required error beneath a visible value is owed by the returned future or
+    already reported. -/
+theorem complete_req_aux :
+    (∀ nn c path S, ∀ e ∈ Spec.reqC nn c path,
+      e ∈ (complete nn c path S).1.owedE ∨ Rep (complete nn c path S).2.log e) ∧
+    (∀ fields path n i acc S, (Fut.outs acc).isSome = true → Spec.fieldsOk fields path = true →
+      ∀ e, (e ∈ Fut.owedEL acc ∨ e ∈ Spec.reqF fields path) →
+        e ∈ (execFields fields path n i acc S).1.owedE ∨ Rep (execFields fields path n i acc S).2.log e) ∧
+    (∀ inn items path i S, (Spec.items inn items path i).isSome = true →
+      ∀ e ∈ Spec.reqL inn items path i,
+        e ∈ Fut.owedEL (completeItems inn items path i S).1 ∨ Rep (completeItems inn items path i S).2.log e) := by
+  apply complete.mutual_induct
+    (motive_1 := fun nn c path S => ∀ e ∈ Spec.reqC nn c path,
+      e ∈ (complete nn c path S).1.owedE ∨ Rep (complete nn c path S).2.log e)
+    (motive_2 := fun fields path n i acc S => (Fut.outs acc).isSome = true → Spec.fieldsOk fields path = true →
+      ∀ e, (e ∈ Fut.owedEL acc ∨ e ∈ Spec.reqF fields path) →
+        e ∈ (execFields fields path n i acc S).1.owedE ∨ Rep (execFields fields path n i acc S).2.log e)
+    (motive_3 := fun inn items path i S => (Spec.items inn items path i).isSome = true →
+      ∀ e ∈ Spec.reqL inn items path i,
+        e ∈ Fut.owedEL (completeItems inn items path i S).1 ∨ Rep (completeItems inn items path i S).2.log e)
+  · intro nn path S e h; simp [Spec.reqC] at h
+  · intro nn path S a e h; simp [Spec.reqC] at h
+  · intro nn path S a e h; simp [Spec.reqC] at h
+  · intro nn path S inn items fs S1 h ih e he
+    have hsome : (Spec.items inn items path 0).isSome = true := by
+      simp only [Spec.reqC, Spec.comp] at he
+      cases hi : Spec.items inn items path 0 <;> simp_all [Out.isOk]
+    have hcl : e ∈ Spec.reqL inn items path 0 := by
+      simp only [Spec.reqC] at he
+      split at he
+      · exact he
+      · simp at he
+    have ih := ih hsome e hcl; rw [h] at ih
+    have houts : Fut.outs fs = Spec.items inn items path 0 := by
+      have := complete_out_aux.2.2 inn items path 0 S; rw [h] at this; exact this
+    simp only [complete, h, nonNullWrap_owedE, mkMapOkToAny_owedE, mkJoin_owedE fs (by rw [houts]; exact hsome)]
+    rcases ih with h1 | h1
+    · exact Or.inl h1
+    · exact Or.inr (h1.mono (nonNullWrap_mono _ _ _ _))
+  · intro nn path S fields f S1 h ih e he
+    have hok : Spec.fieldsOk fields path = true := by
+      simp only [Spec.reqC, Spec.comp] at he
+      cases hi : Spec.fieldsOk fields path <;> simp_all [Out.isOk]
+    have hcl : e ∈ Spec.reqF fields path := by
+      simp only [Spec.reqC] at he
+      split at he
+      · exact he
+      · simp at he
+    have ih := ih (by simp [Fut.outs]) hok e (Or.inr hcl); rw [h] at ih
+    simp only [complete, h, nonNullWrap_owedE, mkMapOkToAny_owedE]
+    rcases ih with h1 | h1
+    · exact Or.inl h1
+    · exact Or.inr (h1.mono (nonNullWrap_mono _ _ _ _))
+  · intro inn path i S _ e h; simp [Spec.reqL] at h
+  · intro inn path i S c rest f S1 h1 f1 S11 h2 fs S2 h3 ih1 ih2 hsome e he
+    have hrest := items_cons_some inn c rest path i hsome
+    have hm3 := complete_mono_aux.2.2 inn rest path (i + 1) S11
+    rw [h3] at hm3
+    simp only [completeItems, h1, h2, h3, Fut.owedEL]
+    simp only [Spec.reqL, List.mem_append] at he
+    rcases he with he | he
+    · rcases itemStep_req inn c (path ++ [.idx i]) S S1 S11 f f1 ih1 h1 h2 e he with h | h
+      · exact Or.inl (List.mem_append_left _ h)
+      · exact Or.inr (h.mono hm3)
+    · have ih2 := ih2 hrest e he; rw [h3] at ih2
+      rcases ih2 with h | h
+      · exact Or.inl (List.mem_append_right _ h)
+      · exact Or.inr h
+  · intro path n i acc S hacc _ e he
+    simp only [execFields, mkMapOkValue_owedE, mkAfter_owedE acc hacc]
+    rcases he with h | h
+    · exact Or.inl h
+    · simp [Spec.reqF] at h
+  · intro path n i acc S key nn rerr c rest ih hacc hok e he
+    rw [execFields_tname]
+    have hok' : Spec.fieldsOk rest path = true := by rw [fieldsOk_cons] at hok; simp at hok; exact hok.2
+    rcases he with h | h
+    · exact ih hacc hok' e (Or.inl h)
+    · rcases (mem_reqF_cons _ _ _ _ _ _ _ _).mp h with h | h
+      · simp [Spec.reqHead] at h
+      · exact ih hacc hok' e (Or.inr h)
+  · intro path n i acc S key nn mode rerr c rest itemPath f S1 h1 S11 e' hm h2 ihc hacc hok e he
+    have hm' : mode ≠ .tname := fun h => hm h
+    have hout := fieldStep_out path key nn mode rerr c S S1 S11 f _ hm' (fun S' => complete_out _ _ _ _) h1 h2
+    rw [fieldsOk_cons, ← hout] at hok
+    simp [Fut.out, Res.out, Out.isOk] at hok
+  · intro path n i acc S key nn mode rerr c rest itemPath f S1 h1 S11 v hm h2 ihc ih hacc hok e he
+    have hm' : mode ≠ .tname := fun h => hm h
+    have hok' : Spec.fieldsOk rest path = true := by rw [fieldsOk_cons] at hok; simp at hok; exact hok.2
+    rw [execFields_cons path key nn mode rerr c rest n i acc S S1 S11 f _ hm' h1 h2, fieldCont_ready_ok]
+    have hmr := complete_mono_aux.2.1 rest path n (i + 1) acc (S11.push (.write path i key v))
+    rcases he with h | h
+    · exact ih hacc hok' e (Or.inl h)
+    · rcases (mem_reqF_cons _ _ _ _ _ _ _ _).mp h with h | h
+      · rcases fieldStep_req path key nn mode rerr c S S1 S11 f _ hm' ihc h1 h2 e h with hc | hc
+        · simp [Fut.owedE] at hc
+        · exact Or.inr ((hc.mono (Mono.push _ _)).mono hmr)
+      · exact ih hacc hok' e (Or.inr h)
+  · intro path n i acc S key nn mode rerr c rest itemPath f S1 h1 S11 f1 hne hno hm h2 ihc ih hacc hok e he
+    have hm' : mode ≠ .tname := fun h => hm h
+    have hout := fieldStep_out path key nn mode rerr c S S1 S11 f f1 hm' (fun S' => complete_out _ _ _ _) h1 h2
+    have hok1 : f1.out.isOk = true := by rw [hout]; rw [fieldsOk_cons] at hok; simp at hok; exact hok.1
+    have hok' : Spec.fieldsOk rest path = true := by rw [fieldsOk_cons] at hok; simp at hok; exact hok.2
+    rw [execFields_cons path key nn mode rerr c rest n i acc S S1 S11 f f1 hm' h1 h2,
+      fieldCont_async rest path n i acc key f1 S11 hne hno]
+    have hacc' : (Fut.outs (acc ++ [Fut.mapOk (OkFn.setSlot path i key) f1])).isSome = true := by
+      rw [outs_append_one]; simp only [hacc, Fut.out, Bool.true_and]
+      cases hf : f1.out <;> simp_all [outOk, Out.isOk]
+    have hmr := complete_mono_aux.2.1 rest path n (i + 1) (acc ++ [Fut.mapOk (OkFn.setSlot path i key) f1]) S11
+    have ih := ih hacc' hok' e
+    rw [owedEL_append_one] at ih
+    simp only [Fut.owedE, List.mem_append] at ih
+    rcases he with h | h
+    · exact ih (Or.inl (Or.inl h))
+    · rcases (mem_reqF_cons _ _ _ _ _ _ _ _).mp h with h | h
+      · rcases fieldStep_req path key nn mode rerr c S S1 S11 f f1 hm' ihc h1 h2 e h with hc | hc
+        · exact ih (Or.inl (Or.inr hc))
+        · exact Or.inr (hc.mono hmr)
+      · exact ih (Or.inr h)
 
 end ApiFu.C02
